@@ -739,8 +739,12 @@ def r24_call_shim(src, item, ed, opts):
             if sp.get("arg0_matches") is not None:
                 # select by the text of the first argument (a regex over its whitespace-free text), never by position
                 c = [n for n in c if n["args"] and re.fullmatch(sp["arg0_matches"], re.sub(r"\s+", "", src.text(*n["args"][0]["range"])), re.S)]
+            if sp.get("recv_matches") is not None:
+                c = [n for n in c if re.fullmatch(sp["recv_matches"], re.sub(r"\s+", "", src.text(*n["receiver"])), re.S)]
         elif kind == "call":
             c = [n for n in nodes_of(item, "call") if n["func"] == sp["func"]]
+            if sp.get("arg0_matches") is not None:
+                c = [n for n in c if n["args"] and re.search(sp["arg0_matches"], re.sub(r"\s+", "", src.text(*n["args"][0]["range"])), re.S)]
         elif kind == "macro":
             c = [n for n in nodes_of(item, "macro") if n["name"] == sp["name"]]
         elif kind == "unary":
@@ -943,25 +947,99 @@ def r35_unwrap_or_else(src, item, ed, opts):
 
 
 def r40_and_then(src, item, ed, opts):
-    """`O.and_then(|P| E)` -> `(match O { Some(P) => E, None => None })`: the definition of Option::and_then;
+    """`O.and_then(|P| E)` -> `(match O { Some(P) => E, None => None })` and `O.map_or(D, |P| E)` ->
+    `(match (O, D) { (Some(P), _) => E, (None, d) => d })`: the definitions of Option::and_then / Option::map_or (D is a
+    evaluated first, as map_or does);
     only for a one-parameter closure whose body has no `?` / `return` (those would leave the closure, not the
-    function); edits inside O and E still apply"""
+    function); edits inside O, D and E still apply"""
     clos = {tuple(c["range"]): c for c in nodes_of(item, "closure")}
     for n in nodes_of(item, "methodcall"):
-        if n["method"] != "and_then" or len(n["args"]) != 1:
+        if n["method"] == "and_then" and len(n["args"]) == 1:
+            ca, dflt = n["args"][0], None
+        elif n["method"] == "map_or" and len(n["args"]) == 2:
+            ca, dflt = n["args"][1], n["args"][0]
+        else:
             continue
-        cn = clos.get(tuple(n["args"][0]["range"]))
+        cn = clos.get(tuple(ca["range"]))
         if cn is None or len(cn["inputs"]) != 1:
             continue
         body = src.text(*cn["body"])
         if "?" in body or re.search(r"\breturn\b", body):
-            raise Unsupported("R40: `?`/`return` inside an and_then closure")
+            raise Unsupported("R40: `?`/`return` inside an and_then / map_or closure")
         pat = cn["inputs"][0]["text"]
         # an outer node's prefix goes before an inner node's prefix at the same offset (cf. _compose_shim)
         ed.insert(n["range"][0], "(match ", "R40", prio=-(n["range"][1] - n["range"][0]))
-        ed.replace(n["receiver"][1], cn["body"][0], f" {{ Some({pat}) => ", "R40")
-        ed.replace(cn["body"][1], n["range"][1], ", None => None })", "R40")
+        if dflt is None:
+            ed.replace(n["receiver"][1], cn["body"][0], f" {{ Some({pat}) => ", "R40")
+            ed.replace(cn["body"][1], n["range"][1], ", None => None })", "R40")
+        else:
+            # `O.map_or(D, |P| E)` -> `(match (O, D) { (Some(P), _) => E, (None, d) => d })`: O, D and E keep their
+            # places in the text (so rewrites inside them still apply) and D is evaluated eagerly, as map_or does
+            ed.insert(n["range"][0], "(", "R40", prio=-(n["range"][1] - n["range"][0]) + 1)
+            ed.replace(n["receiver"][1], dflt["range"][0], ", ", "R40")
+            ed.replace(dflt["range"][1], cn["body"][0], f") {{ (Some({pat}), _) => ", "R40")
+            ed.replace(cn["body"][1], n["range"][1], ", (None, vx_d) => vx_d })", "R40")
         ed.count("R40")
+
+
+def _norm_ws(t):
+    return re.sub(r"\s+", "", t)
+
+
+def r41_map_collect(src, item, ed, opts):
+    """`X.into_iter().map(|P| E).collect()` -> `{ let src = X; let mut out = Vec::new(); let mut i = 0;
+    while i < src.len() { let P = src[i]; out.push(E); i += 1; } out }` for X a vector of Copy items
+    (map_collect=[{n=0, invariant=.., src=.., out=.., i=..}]): what map + collect into a Vec is by definition;
+    X and E stay in place, so rewrites inside them still apply"""
+    clos = {tuple(c["range"]): c for c in nodes_of(item, "closure")}
+    mcs = {tuple(n["range"]): n for n in nodes_of(item, "methodcall")}
+    sites = []
+    for n in nodes_of(item, "methodcall"):
+        if n["method"] != "collect" or n["args"]:
+            continue
+        mp = mcs.get(tuple(n["receiver"]))
+        if not mp or mp["method"] != "map" or len(mp["args"]) != 1 or tuple(mp["args"][0]["range"]) not in clos:
+            continue
+        ii = mcs.get(tuple(mp["receiver"]))
+        if not ii or ii["method"] != "into_iter" or ii["args"]:
+            continue
+        sites.append((n, mp, ii, clos[tuple(mp["args"][0]["range"])]))
+    for sp in opts.get("map_collect", []):
+        k = sp.get("n", 0)
+        if k >= len(sites):
+            if sp.get("optional", True):
+                continue
+            raise LostAnchor(f"into_iter().map().collect() #{k} of {item['path']}")
+        n, mp, ii, cn = sites[k]
+        if len(cn["inputs"]) != 1:
+            raise Unsupported("R41 expects a one-parameter closure")
+        body = src.text(*cn["body"])
+        if "?" in body or re.search(r"\breturn\b", body):
+            raise Unsupported("R41: `?`/`return` inside the map closure")
+        pat = cn["inputs"][0]["text"]
+        v, out, i = sp.get("src", "vx_src"), sp.get("out", "vx_out"), sp.get("i", "vx_i")
+        inv = clause("invariant", sp.get("invariant")) + clause("decreases", sp.get("decreases", f"{v}.len() - {i}"))
+        ed.insert(n["range"][0], f"{{ let {v} = ", "R41", prio=-(n["range"][1] - n["range"][0]))
+        ed.replace(ii["receiver"][1], cn["body"][0], f"; let mut {out} = Vec::new(); let mut {i}: usize = 0; {sp.get('before', '')} while {i} < {v}.len() {inv} {{ let {pat} = {v}[{i}]; {out}.push(", "R41")
+        ed.replace(cn["body"][1], n["range"][1], f"); {i} += 1; {sp.get('body_end', '')} }} {sp.get('after', '')} {out} }}", "R41")
+        ed.count("R41")
+
+
+VEC_MACRO = re.compile(r"::alloc::boxed::box_assume_init_into_vec_unsafe\(\s*::alloc::intrinsics::write_box_via_move\(\s*::alloc::boxed::Box::new_uninit\(\)\s*,\s*")
+
+
+def r43_vec_literal(src, item, ed, opts):
+    """the expansion of `vec![a, b, ..]` -> `vx_vec_of([a, b, ..])` (prelude: a vector holding the array's elements
+    in order): the elements stay in place"""
+    for n in nodes_of(item, "call"):
+        t = src.text(*n["range"])
+        m = VEC_MACRO.match(t)
+        if not m or not t.rstrip().endswith("))"):
+            continue
+        ed.replace(n["range"][0], n["range"][0] + m.end(), "vx_vec_of(", "R43")
+        e = n["range"][1]
+        ed.replace(e - 2, e, ")", "R43")
+        ed.count("R43")
 
 
 def r36_for_chars(src, item, ed, opts):
@@ -1060,6 +1138,8 @@ RULES = {
     "R37": r37_ref_pattern,
     "R39": r39_any_loop,
     "R40": r40_and_then,
+    "R41": r41_map_collect,
+    "R43": r43_vec_literal,
     "R24": r24_call_shim,
 }
 
